@@ -266,10 +266,14 @@ func buildTarget(state *core.BuildState, target *core.BuildTarget, runRemotely b
 			if err != nil {
 				return err
 			}
-			if changed {
+			if changed || len(target.Hashes) > 0 {
+				// Declared hashes must be verified even when nothing was relinked: the declaration itself
+				// may have changed, or a hard-linked source may have been edited in place.
 				if _, err := calculateAndCheckRuleHash(state, target); err != nil {
 					return err
 				}
+			}
+			if changed {
 				target.SetState(core.Built)
 				state.LogBuildResult(target, core.TargetBuilt, "Built")
 			} else {
